@@ -37,6 +37,7 @@ struct Rec {
     // definition record: method record index + body index
     int meth = -1;
     int body = -1;
+    int nonext = 0; // definition registered without a next slot
     std::vector<int> vp; // method: parameter classes; definition: its classes
 };
 
